@@ -33,6 +33,9 @@ CONFIG = dict(
 )
 
 INJ = "__import__('vp_sink').hit('CLI')"
+# code strings around the length boundaries of the text opcodes, counted in characters and in UTF-8 bytes
+INJS = [INJ, "len('" + "\u00e9" * 200 + "')", "len('" + "x" * 250 + "')", "len('" + "x" * 251 + "')", "len('" + "\u4e2d" * 84 + "')",
+        "len('" + "\U0001f600" * 63 + "')", "len('" + "y" * 70000 + "')", "1", "'\u00e9'"]
 
 
 class NonSeekable(io.RawIOBase):
@@ -91,6 +94,10 @@ def run_cli(cli, argv, stdin_obj=None):
                 rc = cli.main(argv)
             except SystemExit as e:
                 rc = e.code
+            except RecursionError:
+                rc = "RecursionError"
+            except Exception as e:              # an uncaught exception is how a real process ends with status 1
+                rc = f"uncaught {type(e).__name__}: {str(e)[:80]}"
     finally:
         sys.stdin, sys.stdout = old_in, old_out
     return rc, out.buffer.getvalue(), out.getvalue(), err.getvalue()
@@ -115,11 +122,13 @@ def check_inject(ctx, f, cli, parts, k, run_last, replace, source):
     data = b"".join(parts)
     n = len(parts)
     key = h(repr((data, k, run_last, replace, source)).encode())
+    inj = INJS[int(key[:2], 16) % len(INJS)] if int(key[2:4], 16) % 3 == 0 else INJ
     if not agg.case(key, n >= 2, {"n": n, "target": k, "run_last": run_last, "replace": replace, "input": source,
                                   "part_lens": [len(p) for p in parts]}):
         return
-    w = {"parts_hex": [p.hex() for p in parts], "target": k, "run_last": run_last, "replace": replace, "input": source}
-    argv = ["fickling", "--inject", INJ, "--inject-target", str(k)]
+    w = {"parts_hex": [p.hex() for p in parts], "target": k, "run_last": run_last, "replace": replace, "input": source,
+         "code": inj[:60] + ("..." if len(inj) > 60 else ""), "code_chars": len(inj), "code_utf8_bytes": len(inj.encode())}
+    argv = ["fickling", "--inject", inj, "--inject-target", str(k)]
     if run_last:
         argv.append("--run-last")
     if replace:
@@ -159,7 +168,7 @@ def check_inject(ctx, f, cli, parts, k, run_last, replace, source):
             agg.violation("inject-not-local", f"pickle {i} (not the target {k}) was changed", w)
             return
     exp = f.Pickled.load(parts[k])
-    exp.insert_python_eval(INJ, run_first=not run_last, use_output_as_unpickle_result=replace)
+    exp.insert_python_eval(inj, run_first=not run_last, use_output_as_unpickle_result=replace)
     if gen.frames_wellformed(parts[k]) is None:
         agg.count("framing_checked")
         fault = gen.frames_wellformed(got[k])
@@ -169,7 +178,7 @@ def check_inject(ctx, f, cli, parts, k, run_last, replace, source):
             return
     if got[k] != exp.dumps():
         agg.violation("inject-target-differs", "target pickle differs from the library's injection with the same flags",
-                      dict(w, got=got[k].hex()[:400], expected=exp.dumps().hex()[:400]))
+                      dict(w, got=got[k].hex()[:400], expected=expected.hex()[:400]))
     if outt:
         agg.violation("inject-text-on-stdout", f"text mixed into the binary output: {outt[:80]!r}", w)
 
